@@ -299,6 +299,14 @@ func (c *Conn) PeerDone() bool {
 	return c.peerFin || c.peerGone
 }
 
+// LiveForMosn: MOSN has not closed it and has not yet been shown the peer's
+// FIN/RST: the connection every correct bookkeeping of MOSN must still count.
+func (c *Conn) LiveForMosn() bool {
+	c.mu.Lock()
+	defer c.mu.Unlock()
+	return !c.mClosed && !c.rxEOF && !c.rxRST
+}
+
 // Open: neither side closed (the network's truth about a live connection).
 func (c *Conn) Open() bool {
 	c.mu.Lock()
@@ -420,8 +428,9 @@ type Net struct {
 	// OnDial decides the fate of an upstream dial and, on accept, returns the peer
 	// actor. It runs on a MOSN goroutine under the net's lock: it must only read
 	// tables the scheduler prepared and must not draw choices.
-	OnDial func(addr string) (DialDecision, Peer, string)
+	OnDial                        func(addr string) (DialDecision, Peer, string)
 	DialsRefused, DialsBlackholed int
+	DialsInProgress               map[string]int // black-holed connects still waiting for their timeout
 	// Latency returns the one-way latency for a new segment on c.
 	Latency func(c *Conn, toMosn bool) time.Duration
 }
@@ -458,6 +467,13 @@ func (n *Net) Listen(network, address string) (net.Listener, error) {
 	l := &Listener{n: n, addr: tcpAddr(address), q: make(chan *Conn, 1024), done: make(chan struct{}), dlCh: make(chan struct{})}
 	n.listeners[address] = l
 	return l, nil
+}
+
+// PendingDials is the number of connects to address still in progress.
+func (n *Net) PendingDials(address string) int {
+	n.mu.Lock()
+	defer n.mu.Unlock()
+	return n.DialsInProgress[address]
 }
 
 // Listening reports whether something listens on address.
@@ -519,11 +535,18 @@ func (n *Net) Dial(network, address string, timeout time.Duration) (net.Conn, er
 		return nil, &net.OpError{Op: "dial", Net: "tcp", Addr: tcpAddr(address), Err: syscall.ECONNREFUSED}
 	case DialBlackhole:
 		n.DialsBlackholed++
+		if n.DialsInProgress == nil {
+			n.DialsInProgress = map[string]int{}
+		}
+		n.DialsInProgress[address]++
 		n.mu.Unlock()
 		if timeout <= 0 {
 			timeout = 30 * time.Second
 		}
 		time.Sleep(timeout)
+		n.mu.Lock()
+		n.DialsInProgress[address]--
+		n.mu.Unlock()
 		return nil, &net.OpError{Op: "dial", Net: "tcp", Addr: tcpAddr(address), Err: &timeoutErr{"dial"}}
 	}
 	n.nextPort++
